@@ -253,6 +253,12 @@ def coupled(rc):
             rc.fail(f, m.node, f"{name} modifies its operand `{m.root}` ({m.how})", construct=f"{name}: {norm(m.node, 100)}")
 
 
+
+@rule("C04.defuse", "anchored files: every parameter is read, no value is computed and dropped (generic def-use detectors, triaged hit list)", floor=2)
+def defuse(rc):
+    from . import shared as _sh
+    _sh.defuse_rule(rc, _sh.anchor_files("C04"))
+
 MUTANTS = [
     dict(kind="break", name="reduce-result-views-operand", file=DF, expect="C04.inplace",
          old="        phi.values = phi.values[tuple(slice_)]\n\n        if not inplace:", new="        phi.values = self.values[tuple(slice_)]\n\n        if not inplace:"),
